@@ -8,16 +8,12 @@
 (* constant, so TLC explores the finite region graph exhaustively.         *)
 (* Every explored transition is emitted as an edge for replay.             *)
 (***************************************************************************)
-EXTENDS PropsPanic, Sequences
+EXTENDS PropsPanic, Sequences, PanicImpl
 
 CONSTANTS TickSet,      \* allowed clock advances (seconds)
           Groups        \* group names, e.g. {"G1"}
 
 T0 == 1700000000
-PAUSE == 1800
-DAY == 86400
-MAXC == 2     \* MAX_CONSECUTIVE_PAUSES
-MAXD == 3     \* MAX_DAILY_PAUSES
 
 VARIABLES now, ps, cache, acc, sid
 vars == <<now, ps, cache, acc, sid>>
@@ -26,20 +22,7 @@ PS0 == [flags |-> 0, daily |-> 0, consec |-> 0, start |-> 0, reset |-> 0]
 C0 == [flags |-> 0, start |-> 0]
 
 \* ---- implementation-shaped definitions -------------------------------------------------------
-ImplIsExpired(p, t) == IF p.flags = 0 THEN TRUE ELSE IF t < p.start THEN FALSE ELSE t - p.start >= PAUSE
-ImplUnpause(p) == [p EXCEPT !.flags = 0, !.start = 0, !.consec = 0]
-ImplUnpauseIfExpired(p, t) == IF p.flags = 1 /\ ImplIsExpired(p, t) THEN ImplUnpause(p) ELSE p
-ImplCanPause(p, t) ==
-  LET d == IF t - p.reset >= DAY THEN 0 ELSE p.daily IN p.consec < MAXC /\ d < MAXD
-\* returns <<ok, p'>>
-ImplPause(p, t) ==
-  LET p1 == ImplUnpauseIfExpired(ImplUnpauseIfExpired(p, t), t)
-      p2 == IF t - p1.reset >= DAY THEN [p1 EXCEPT !.daily = 0, !.reset = t] ELSE p1
-  IN IF ~ImplCanPause(p2, t) THEN <<FALSE, p>>
-     ELSE LET p3 == IF p2.flags = 1 /\ ~ImplIsExpired(p2, t) THEN [p2 EXCEPT !.start = p2.start + PAUSE]
-                    ELSE [p2 EXCEPT !.start = t]
-          IN <<TRUE, [p3 EXCEPT !.flags = 1, !.daily = p3.daily + 1, !.consec = p3.consec + 1]>>
-ImplGroupPaused(c, t) == c.flags = 1 /\ ~ImplIsExpired(c, t)
+\* (ImplIsExpired, ImplUnpause, ImplUnpauseIfExpired, ImplCanPause, ImplPause, ImplGroupPaused: module PanicImpl, shared with PanicInd.tla)
 
 \* ---- projection-shaped state for the property predicates ------------------------------------
 S(t, p, c) ==
